@@ -336,10 +336,10 @@ Proof.
   rewrite E, charset_index_at in H1 by assumption. injection H1 as ->. reflexivity.
 Qed.
 
-Definition is_digit (c : byte) : bool := N.leb 48 (b2n c) && N.leb (b2n c) 57.
+Definition b32_is_digit (c : byte) : bool := N.leb 48 (b2n c) && N.leb (b2n c) 57.
 
 Lemma charset_at_class : forall v, v < 32 ->
-  (is_lower (charset_at v) || is_digit (charset_at v)) = true /\
+  (is_lower (charset_at v) || b32_is_digit (charset_at v)) = true /\
   is_upper (charset_at v) = false /\
   printable (charset_at v) = true /\
   charset_at v <> one /\
@@ -349,7 +349,7 @@ Proof.
   intros v Hv.
   pose proof (forall_lt32
     (fun v => let c := charset_at v in
-       (is_lower c || is_digit c) && negb (is_upper c) && printable c &&
+       (is_lower c || b32_is_digit c) && negb (is_upper c) && printable c &&
        negb (Byte.eqb c one) && Byte.eqb (to_lower c) c && negb (Byte.eqb (to_upper c) one))
     eq_refl v Hv) as H. cbv beta zeta in H.
   repeat (apply andb_true_iff in H; let H' := fresh "H" in destruct H as [H H']).
@@ -363,7 +363,7 @@ Proof.
 Qed.
 
 Lemma charset_index_class : forall c v, charset_index c = Some v ->
-  (is_lower c || is_digit c) = true /\ is_upper c = false /\ c <> one.
+  (is_lower c || b32_is_digit c) = true /\ is_upper c = false /\ c <> one.
 Proof.
   intros c v H. destruct (charset_at_index c v H) as [Hv <-].
   destruct (charset_at_class v Hv) as (A & B & _ & D & _). repeat split; assumption.
@@ -488,4 +488,1044 @@ Proof.
   { apply Nat.ltb_ge. rewrite (map_opt_length _ _ _ _ _ Ed), skipn_length, lower_length. lia. }
   rewrite E6.
   destruct (convert_bits (firstn (length data - 6) data) 5 8 false); reflexivity.
+Qed.
+
+(* ================================================================== *)
+(** * Part 2                                                            *)
+(* ================================================================== *)
+
+(** ** Big-endian value of a list of [w]-bit groups *)
+
+Definition valw (w : N) (l : list N) : N := fold_left (fun a v => a * 2 ^ w + v) l 0.
+
+Lemma valw_app1 : forall w l x, valw w (l ++ [x]) = valw w l * 2 ^ w + x.
+Proof. intros w l x. unfold valw. rewrite fold_left_app. reflexivity. Qed.
+
+Lemma pow2_nz : forall n, 2 ^ n <> 0.
+Proof. intro n. apply N.pow_nonzero. discriminate. Qed.
+
+Lemma valw_inj : forall w l l', length l = length l' ->
+  Forall (fun v => v < 2 ^ w) l -> Forall (fun v => v < 2 ^ w) l' ->
+  valw w l = valw w l' -> l = l'.
+Proof.
+  intros w l. induction l as [|x l IH] using rev_ind; intros l' HL F F' E.
+  - destruct l' as [|y l']; [reflexivity|discriminate HL].
+  - destruct l' as [|y l' _] using rev_ind.
+    + rewrite app_length in HL. cbn in HL. lia.
+    + rewrite !valw_app1 in E. apply Forall_app in F. apply Forall_app in F'.
+      destruct F as [F Fx]. destruct F' as [F' Fy].
+      inversion Fx as [|? ? Hx _]; subst. inversion Fy as [|? ? Hy _]; subst.
+      rewrite !(N.mul_comm _ (2 ^ w)) in E.
+      destruct (N.div_mod_unique _ _ _ _ _ Hx Hy E) as [E1 E2]. subst y.
+      rewrite !app_length in HL. cbn in HL.
+      rewrite (IH l') by (try assumption; lia). reflexivity.
+Qed.
+
+(** ** arithmetic of shifting windows *)
+
+Lemma div_step : forall A b t, A / 2 ^ (b + t) * 2 ^ t + (A / 2 ^ b) mod 2 ^ t = A / 2 ^ b.
+Proof.
+  intros A b t. rewrite N.pow_add_r, <- N.div_div by apply pow2_nz.
+  rewrite N.mul_comm. symmetry. apply N.div_mod. apply pow2_nz.
+Qed.
+
+Lemma observe_window : forall A b t, b + t <= 32 ->
+  N.land (N.shiftr (A mod 2 ^ 32) b) (2 ^ t - 1) = (A / 2 ^ b) mod 2 ^ t.
+Proof.
+  intros A b t H. rewrite N.sub_1_r, <- N.ones_equiv, N.land_ones, N.shiftr_div_pow2.
+  apply N.bits_inj; intro n. destruct (N.lt_ge_cases n t) as [L|L].
+  - rewrite !N.mod_pow2_bits_low by assumption. rewrite !N.div_pow2_bits.
+    apply N.mod_pow2_bits_low. lia.
+  - rewrite !N.mod_pow2_bits_high by assumption. reflexivity.
+Qed.
+
+Lemma consume_div : forall A v b f, v < 2 ^ f -> (A * 2 ^ f + v) / 2 ^ (b + f) = A / 2 ^ b.
+Proof.
+  intros A v b f Hv. rewrite (N.add_comm b f), N.pow_add_r, <- N.div_div by apply pow2_nz.
+  rewrite N.div_add_l by apply pow2_nz. rewrite (N.div_small v) by assumption.
+  rewrite N.add_0_r. reflexivity.
+Qed.
+
+Lemma land_shiftl_small : forall a v f, v < 2 ^ f -> N.land (N.shiftl a f) v = 0.
+Proof.
+  intros a v f Hv. apply N.bits_inj; intro n. rewrite N.land_spec, N.bits_0.
+  destruct (N.lt_ge_cases n f) as [L|L].
+  - rewrite N.shiftl_spec_low by assumption. reflexivity.
+  - assert (Hvn : N.testbit v n = false).
+    { destruct (N.eq_dec v 0) as [->|Nz]; [apply N.bits_0|].
+      apply N.bits_above_log2.
+      assert (N.log2 v < f) by (apply N.log2_lt_pow2; [lia|exact Hv]). lia. }
+    rewrite Hvn. apply andb_false_r.
+Qed.
+
+Lemma lor_shiftl_add : forall a v f, v < 2 ^ f -> N.lor (N.shiftl a f) v = a * 2 ^ f + v.
+Proof.
+  intros a v f Hv. pose proof (land_shiftl_small a v f Hv) as H.
+  rewrite <- N.lxor_lor, <- N.add_nocarry_lxor by assumption.
+  rewrite N.shiftl_mul_pow2. reflexivity.
+Qed.
+
+Lemma u32_pow : forall n, u32 n = n mod 2 ^ 32.
+Proof. reflexivity. Qed.
+
+Lemma acc_update : forall A v f, v < 2 ^ f ->
+  u32 (N.lor (N.shiftl (A mod 2 ^ 32) f) v) = (A * 2 ^ f + v) mod 2 ^ 32.
+Proof.
+  intros A v f Hv. rewrite lor_shiftl_add by assumption. rewrite u32_pow.
+  rewrite (N.add_mod (A mod 2 ^ 32 * 2 ^ f)) by apply pow2_nz.
+  rewrite N.mul_mod_idemp_l by apply pow2_nz.
+  rewrite <- N.add_mod by apply pow2_nz. reflexivity.
+Qed.
+
+Lemma divmod_scale : forall A b t, b <= t ->
+  A / 2 ^ b * 2 ^ t + (A mod 2 ^ b) * 2 ^ (t - b) = A * 2 ^ (t - b).
+Proof.
+  intros A b t H.
+  replace (2 ^ t) with (2 ^ b * 2 ^ (t - b)) by (rewrite <- N.pow_add_r; f_equal; lia).
+  transitivity ((2 ^ b * (A / 2 ^ b) + A mod 2 ^ b) * 2 ^ (t - b)); [ring|].
+  rewrite <- N.div_mod by apply pow2_nz. reflexivity.
+Qed.
+
+(** ** the loops of [convert_bits] *)
+
+Section Loop.
+Variables from to : N.
+Hypothesis Hf : 1 <= from <= 8.
+Hypothesis Ht : 4 <= to <= 8.
+
+Let bound (out : list N) := Forall (fun v => v < 2 ^ to) out.
+
+Lemma cb_drain_spec : forall fuel A bits out K,
+  bits < N.of_nat fuel * to -> bits <= 16 ->
+  valw to out = A / 2 ^ bits -> bound out ->
+  to * N.of_nat (length out) + bits = K ->
+  exists bits' out',
+    cb_drain fuel to (A mod 2 ^ 32) bits out = (bits', out') /\ bits' < to /\
+    valw to out' = A / 2 ^ bits' /\ bound out' /\
+    to * N.of_nat (length out') + bits' = K.
+Proof.
+  induction fuel as [|fuel IH]; intros A bits out K Hfuel H16 Hv Hb HK.
+  - cbn in Hfuel. lia.
+  - cbn [cb_drain]. destruct (N.leb to bits) eqn:E.
+    + apply N.leb_le in E.
+      rewrite Nat2N.inj_succ, N.mul_succ_l in Hfuel.
+      apply IH.
+      * lia.
+      * lia.
+      * rewrite valw_app1, Hv, observe_window by lia.
+        replace bits with ((bits - to) + to) at 1 by lia. apply div_step.
+      * apply Forall_app. split; [assumption|]. constructor; [|constructor].
+        rewrite observe_window by lia. apply N.mod_lt. apply pow2_nz.
+      * rewrite app_length. cbn [length]. lia.
+    + apply N.leb_gt in E. exists bits, out. repeat split; assumption.
+Qed.
+
+Definition cb_inv (A acc bits : N) (out : list N) (n : nat) : Prop :=
+  acc = A mod 2 ^ 32 /\ bits < to /\ valw to out = A / 2 ^ bits /\ bound out /\
+  to * N.of_nat (length out) + bits = from * N.of_nat n.
+
+Lemma cb_loop_inv : forall rest A acc bits out n,
+  Forall (fun v => v < 2 ^ from) rest -> cb_inv A acc bits out n ->
+  exists acc' bits' out',
+    cb_loop from to rest acc bits out = Some (acc', bits', out') /\
+    cb_inv (fold_left (fun a v => a * 2 ^ from + v) rest A) acc' bits' out'
+           (n + length rest).
+Proof.
+  induction rest as [|v rest IH]; intros A acc bits out n HF (Hacc & Hbits & Hv & Hb & HK).
+  - exists acc, bits, out. split; [reflexivity|]. rewrite Nat.add_0_r.
+    repeat split; assumption.
+  - pose proof (Forall_inv HF) as Hv0. pose proof (Forall_inv_tail HF) as HF'.
+    cbv beta in Hv0. cbn [cb_loop fold_left].
+    assert (E0 : N.eqb (N.shiftr v from) 0 = true).
+    { apply N.eqb_eq. rewrite N.shiftr_div_pow2. apply N.div_small. assumption. }
+    rewrite E0. cbn [negb]. subst acc. rewrite acc_update by assumption.
+    destruct (cb_drain_spec 8 (A * 2 ^ from + v) (bits + from) out
+                (from * N.of_nat (S n))) as (bits' & out' & Hd & Hb' & Hv' & Hbd' & HK').
+    + change (N.of_nat 8) with 8. lia.
+    + lia.
+    + rewrite consume_div by assumption. assumption.
+    + assumption.
+    + lia.
+    + rewrite Hd.
+      destruct (IH (A * 2 ^ from + v) ((A * 2 ^ from + v) mod 2 ^ 32) bits' out' (S n) HF')
+        as (acc2 & bits2 & out2 & Hl & Hinv).
+      { repeat split; assumption. }
+      exists acc2, bits2, out2. split; [assumption|].
+      replace (n + length (v :: rest))%nat with (S n + length rest)%nat by (cbn; lia).
+      assumption.
+Qed.
+
+Lemma cb_loop_spec : forall data, Forall (fun v => v < 2 ^ from) data ->
+  exists acc bits out,
+    cb_loop from to data 0 0 [] = Some (acc, bits, out) /\
+    acc = valw from data mod 2 ^ 32 /\ bits < to /\
+    valw to out = valw from data / 2 ^ bits /\
+    Forall (fun v => v < 2 ^ to) out /\
+    to * N.of_nat (length out) + bits = from * N.of_nat (length data).
+Proof.
+  intros data HF.
+  destruct (cb_loop_inv data 0 0 0 [] 0 HF) as (acc & bits & out & Hl & Hinv).
+  - repeat split; try reflexivity; try lia; [constructor|cbn; lia].
+  - exists acc, bits, out. split; [assumption|]. exact Hinv.
+Qed.
+End Loop.
+
+(** ** [convert_bits] 8 -> 5 (padding) and 5 -> 8 (strict) *)
+
+Lemma pad_value : forall A bits, 0 < bits < 5 ->
+  N.land (u32 (N.shiftl (A mod 2 ^ 32) (5 - bits))) (2 ^ 5 - 1) mod 256 =
+  (A mod 2 ^ bits) * 2 ^ (5 - bits).
+Proof.
+  intros A bits H. change (2 ^ 5 - 1) with (N.ones 5).
+  rewrite N.land_ones, N.shiftl_mul_pow2, u32_pow.
+  assert (C : bits = 1 \/ bits = 2 \/ bits = 3 \/ bits = 4) by lia.
+  destruct C as [-> | [-> | [-> | ->]]].
+  - change (2 ^ (5 - 1)) with 16. change (2 ^ 32) with 4294967296.
+    change (2 ^ 5) with 32. change (2 ^ 1) with 2. lia.
+  - change (2 ^ (5 - 2)) with 8. change (2 ^ 32) with 4294967296.
+    change (2 ^ 5) with 32. change (2 ^ 2) with 4. lia.
+  - change (2 ^ (5 - 3)) with 4. change (2 ^ 32) with 4294967296.
+    change (2 ^ 5) with 32. change (2 ^ 3) with 8. lia.
+  - change (2 ^ (5 - 4)) with 2. change (2 ^ 32) with 4294967296.
+    change (2 ^ 5) with 32. change (2 ^ 4) with 16. lia.
+Qed.
+
+Lemma check_value : forall A bits, bits < 5 ->
+  N.eqb (N.land (u32 (N.shiftl (A mod 2 ^ 32) (8 - bits)) mod 256) (2 ^ 8 - 1)) 0 =
+  N.eqb (A mod 2 ^ bits) 0.
+Proof.
+  intros A bits H. change (2 ^ 8 - 1) with (N.ones 8).
+  rewrite N.land_ones, N.shiftl_mul_pow2, u32_pow.
+  assert (C : bits = 0 \/ bits = 1 \/ bits = 2 \/ bits = 3 \/ bits = 4) by lia.
+  destruct C as [->|[-> | [-> | [-> | ->]]]].
+  - change (2 ^ (8 - 0)) with 256. change (2 ^ 32) with 4294967296.
+    change (2 ^ 8) with 256. change (2 ^ 0) with 1. lia.
+  - change (2 ^ (8 - 1)) with 128. change (2 ^ 32) with 4294967296.
+    change (2 ^ 8) with 256. change (2 ^ 1) with 2. lia.
+  - change (2 ^ (8 - 2)) with 64. change (2 ^ 32) with 4294967296.
+    change (2 ^ 8) with 256. change (2 ^ 2) with 4. lia.
+  - change (2 ^ (8 - 3)) with 32. change (2 ^ 32) with 4294967296.
+    change (2 ^ 8) with 256. change (2 ^ 3) with 8. lia.
+  - change (2 ^ (8 - 4)) with 16. change (2 ^ 32) with 4294967296.
+    change (2 ^ 8) with 256. change (2 ^ 4) with 16. lia.
+Qed.
+
+Lemma conv_8_5 : forall data, Forall (fun v => v < 256) data ->
+  exists v5 pad,
+    convert_bits data 8 5 true = Some v5 /\ Forall (fun v => v < 32) v5 /\ pad < 5 /\
+    5 * N.of_nat (length v5) = 8 * N.of_nat (length data) + pad /\
+    valw 5 v5 = valw 8 data * 2 ^ pad.
+Proof.
+  intros data HF.
+  destruct (cb_loop_spec 8 5 ltac:(lia) ltac:(lia) data HF)
+    as (acc & bits & out & Hl & Hacc & Hb & Hv & Hout & HK).
+  unfold convert_bits. rewrite Hl. destruct (N.ltb 0 bits) eqn:E.
+  - apply N.ltb_lt in E. exists (out ++ [(valw 8 data mod 2 ^ bits) * 2 ^ (5 - bits)]), (5 - bits).
+    split; [|split; [|split; [|split]]].
+    + rewrite Hacc, pad_value by lia. reflexivity.
+    + apply Forall_app. split; [exact Hout|]. constructor; [|constructor].
+      change 32 with (2 ^ 5). replace 5 with (bits + (5 - bits)) at 2 by lia.
+      rewrite N.pow_add_r. apply N.mul_lt_mono_pos_r.
+      * apply N.neq_0_lt_0. apply pow2_nz.
+      * apply N.mod_lt. apply pow2_nz.
+    + lia.
+    + rewrite app_length. cbn [length]. lia.
+    + rewrite valw_app1, Hv. apply divmod_scale. lia.
+  - apply N.ltb_ge in E. assert (bits = 0) by lia. subst bits.
+    exists out, 0. split; [reflexivity|]. split; [exact Hout|]. split; [lia|]. split; [lia|].
+    rewrite Hv. change (2 ^ 0) with 1. rewrite N.div_1_r, N.mul_1_r. reflexivity.
+Qed.
+
+Lemma conv_5_8 : forall d5, Forall (fun v => v < 32) d5 ->
+  exists bits out,
+    bits < 8 /\ 8 * N.of_nat (length out) + bits = 5 * N.of_nat (length d5) /\
+    valw 8 out = valw 5 d5 / 2 ^ bits /\ Forall (fun v => v < 256) out /\
+    convert_bits d5 5 8 false =
+      if N.ltb bits 5 && N.eqb (valw 5 d5 mod 2 ^ bits) 0 then Some out else None.
+Proof.
+  intros d5 HF.
+  destruct (cb_loop_spec 5 8 ltac:(lia) ltac:(lia) d5 HF)
+    as (acc & bits & out & Hl & Hacc & Hb & Hv & Hout & HK).
+  exists bits, out. repeat split; try assumption.
+  unfold convert_bits. rewrite Hl. rewrite N.ltb_antisym.
+  destruct (N.leb 5 bits) eqn:E; cbn [negb andb]; [reflexivity|].
+  apply N.leb_gt in E. rewrite Hacc, check_value by assumption.
+  destruct (N.eqb (valw 5 d5 mod 2 ^ bits) 0); reflexivity.
+Qed.
+
+Lemma Forall_b2n : forall data : bytes, Forall (fun v => v < 256) (map b2n data).
+Proof.
+  intros data. apply Forall_forall. intros v Hv. apply in_map_iff in Hv.
+  destruct Hv as (b & <- & _). apply b2n_bounded.
+Qed.
+
+Lemma map_b2n_n2b : forall l, Forall (fun v => v < 256) l -> map b2n (map n2b l) = l.
+Proof.
+  induction l as [|v l IH]; intro H; [reflexivity|].
+  cbn [map]. rewrite b2n_n2b_small by exact (Forall_inv H).
+  rewrite IH by exact (Forall_inv_tail H). reflexivity.
+Qed.
+
+Lemma map_n2b_b2n : forall data : bytes, map n2b (map b2n data) = data.
+Proof.
+  induction data as [|b data IH]; [reflexivity|].
+  cbn [map]. rewrite n2b_b2n, IH. reflexivity.
+Qed.
+
+(** 8 -> 5 -> 8 *)
+Lemma convert_bits_8_5_8 : forall l8, Forall (fun v => v < 256) l8 ->
+  exists v5, convert_bits l8 8 5 true = Some v5 /\ Forall (fun v => v < 32) v5 /\
+             convert_bits v5 5 8 false = Some l8.
+Proof.
+  intros l8 HF.
+  destruct (conv_8_5 l8 HF) as (v5 & pad & Hc & H5 & Hpad & Hlen & Hval).
+  exists v5. split; [assumption|]. split; [assumption|].
+  destruct (conv_5_8 v5 H5) as (bits & out & Hb & Hlen' & Hval' & Hout & Hc').
+  assert (bits = pad) by lia. subst bits.
+  assert (HL : length out = length l8) by lia.
+  rewrite Hc', Hval. rewrite N.mod_mul by apply pow2_nz.
+  assert (E5 : N.ltb pad 5 = true) by (apply N.ltb_lt; assumption).
+  rewrite E5. cbn [andb N.eqb]. f_equal.
+  apply (valw_inj 8); try assumption.
+  rewrite Hval', Hval, N.div_mul by apply pow2_nz. reflexivity.
+Qed.
+
+(** 5 -> 8 -> 5: the strict decoder has exactly one preimage *)
+Lemma convert_bits_5_8_5 : forall d5 b8, Forall (fun v => v < 32) d5 ->
+  convert_bits d5 5 8 false = Some b8 ->
+  Forall (fun v => v < 256) b8 /\ convert_bits b8 8 5 true = Some d5.
+Proof.
+  intros d5 b8 H5 Hc.
+  destruct (conv_5_8 d5 H5) as (bits & out & Hb & Hlen & Hval & Hout & Hc').
+  rewrite Hc in Hc'.
+  destruct (N.ltb bits 5) eqn:E5; [|discriminate Hc'].
+  destruct (N.eqb (valw 5 d5 mod 2 ^ bits) 0) eqn:E0; [|discriminate Hc'].
+  cbn [andb] in Hc'. injection Hc' as ->.
+  apply N.ltb_lt in E5. apply N.eqb_eq in E0.
+  split; [assumption|].
+  destruct (conv_8_5 out Hout) as (v5 & pad & Hc8 & Hv5 & Hpad & Hlen8 & Hval8).
+  rewrite Hc8. f_equal.
+  assert (pad = bits) by lia. subst pad.
+  apply (valw_inj 5); try assumption; [lia|].
+  rewrite Hval8, Hval.
+  pose proof (N.div_mod (valw 5 d5) (2 ^ bits) (pow2_nz bits)) as D.
+  rewrite E0, N.add_0_r, N.mul_comm in D. symmetry. exact D.
+Qed.
+
+(** ** Checksum: existence and uniqueness *)
+
+Definition unpack6 (m : N) : list N :=
+  map (fun p => N.land (N.shiftr m (5 * (5 - N.of_nat p))) 31) (seq 0 6).
+
+Lemma unpack6_eq : forall m, unpack6 m =
+  [N.land (N.shiftr m 25) 31; N.land (N.shiftr m 20) 31; N.land (N.shiftr m 15) 31;
+   N.land (N.shiftr m 10) 31; N.land (N.shiftr m 5) 31; N.land (N.shiftr m 0) 31].
+Proof. reflexivity. Qed.
+
+Lemma unpack6_length : forall m, length (unpack6 m) = 6%nat.
+Proof. reflexivity. Qed.
+
+Lemma unpack6_bound : forall m, Forall (fun v => v < 32) (unpack6 m).
+Proof.
+  intros m. rewrite unpack6_eq. change 31 with (N.ones 5).
+  repeat (constructor; [rewrite N.land_ones; apply N.mod_lt; discriminate|]). constructor.
+Qed.
+
+Lemma list6 : forall (A : Type) (c : list A), length c = 6%nat ->
+  exists c0 c1 c2 c3 c4 c5, c = [c0; c1; c2; c3; c4; c5].
+Proof.
+  intros A c H. do 6 (destruct c as [|? c]; [discriminate H|]).
+  destruct c; [|discriminate H]. repeat eexists.
+Qed.
+
+Lemma pack6 : forall c, length c = 6%nat -> Forall (fun v => v < 32) c ->
+  fold_left polymod_step c 0 = valw 5 c.
+Proof.
+  intros c HL HF. destruct (list6 _ c HL) as (c0 & c1 & c2 & c3 & c4 & c5 & ->).
+  repeat match goal with H : Forall _ (_ :: _) |- _ =>
+    let H1 := fresh "B" in pose proof (Forall_inv H) as H1; cbv beta in H1;
+    apply Forall_inv_tail in H end.
+  unfold valw. cbn [fold_left]. change (2 ^ 5) with 32.
+  repeat match goal with |- context [polymod_step ?a ?b] =>
+    rewrite (polymod_step_small a b) by (try assumption; change (2 ^ 25) with 33554432; lia) end.
+  reflexivity.
+Qed.
+
+Lemma unpack6_valw : forall c, length c = 6%nat -> Forall (fun v => v < 32) c ->
+  unpack6 (valw 5 c) = c.
+Proof.
+  intros c HL HF. destruct (list6 _ c HL) as (c0 & c1 & c2 & c3 & c4 & c5 & ->).
+  repeat match goal with H : Forall _ (_ :: _) |- _ =>
+    let H1 := fresh "B" in pose proof (Forall_inv H) as H1; cbv beta in H1;
+    apply Forall_inv_tail in H end.
+  rewrite unpack6_eq. unfold valw. cbn [fold_left]. change 31 with (N.ones 5).
+  rewrite !N.land_ones, !N.shiftr_div_pow2.
+  change (2 ^ 5) with 32. change (2 ^ 25) with 33554432. change (2 ^ 20) with 1048576.
+  change (2 ^ 15) with 32768. change (2 ^ 10) with 1024. change (2 ^ 0) with 1.
+  repeat (apply f_equal2; [lia|]). reflexivity.
+Qed.
+
+Lemma valw_unpack6 : forall m, m < 2 ^ 30 -> valw 5 (unpack6 m) = m.
+Proof.
+  intros m H. rewrite unpack6_eq. unfold valw. cbn [fold_left]. change 31 with (N.ones 5).
+  rewrite !N.land_ones, !N.shiftr_div_pow2.
+  change (2 ^ 5) with 32. change (2 ^ 25) with 33554432. change (2 ^ 20) with 1048576.
+  change (2 ^ 15) with 32768. change (2 ^ 10) with 1024. change (2 ^ 0) with 1.
+  change (2 ^ 30) with 1073741824 in H. lia.
+Qed.
+
+(** Appending six symbols to any state: six zero steps, then xor the packed symbols. *)
+Lemma fold_append6 : forall S c, length c = 6%nat -> Forall (fun v => v < 32) c ->
+  fold_left polymod_step c S =
+  N.lxor (fold_left polymod_step (repeat 0 6) S) (valw 5 c).
+Proof.
+  intros S c HL HF. rewrite <- (pack6 c HL HF).
+  rewrite <- fold_polymod_lxor by (rewrite repeat_length; symmetry; assumption).
+  rewrite xor_list_zeros_l by assumption. rewrite N.lxor_0_r. reflexivity.
+Qed.
+
+Lemma zeros6_bound : forall S, fold_left polymod_step (repeat 0 6) S < 2 ^ 30.
+Proof.
+  intros S. cbn [repeat fold_left]. apply polymod_step_bound. reflexivity.
+Qed.
+
+Lemma create_checksum_eq : forall hrp data,
+  create_checksum hrp data =
+  unpack6 (N.lxor (fold_left polymod_step (repeat 0 6)
+                     (fold_left polymod_step (hrp_expand hrp ++ data) 1)) 1).
+Proof.
+  intros hrp data. unfold create_checksum, polymod, unpack6.
+  rewrite app_assoc, fold_left_app. reflexivity.
+Qed.
+
+Lemma create_checksum_length : forall hrp data, length (create_checksum hrp data) = 6%nat.
+Proof. intros. rewrite create_checksum_eq. apply unpack6_length. Qed.
+
+Lemma create_checksum_bound : forall hrp data,
+  Forall (fun v => v < 32) (create_checksum hrp data).
+Proof. intros. rewrite create_checksum_eq. apply unpack6_bound. Qed.
+
+Lemma lxor_1_bound : forall z, z < 2 ^ 30 -> N.lxor z 1 < 2 ^ 30.
+Proof. intros z H. apply lxor_lt_pow2; [assumption|reflexivity]. Qed.
+
+Theorem checksum_verify : forall hrp data,
+  verify_checksum hrp (data ++ create_checksum hrp data) = true.
+Proof.
+  intros hrp data. unfold verify_checksum, polymod. apply N.eqb_eq.
+  rewrite app_assoc, fold_left_app.
+  rewrite fold_append6 by (apply create_checksum_length || apply create_checksum_bound).
+  rewrite create_checksum_eq.
+  set (Z := fold_left polymod_step (repeat 0 6) _).
+  rewrite valw_unpack6 by (apply lxor_1_bound; apply zeros6_bound).
+  rewrite <- N.lxor_assoc, N.lxor_nilpotent, N.lxor_0_l. reflexivity.
+Qed.
+
+Theorem checksum_unique : forall hrp data c,
+  length c = 6%nat -> Forall (fun v => v < 32) c ->
+  verify_checksum hrp (data ++ c) = true -> c = create_checksum hrp data.
+Proof.
+  intros hrp data c HL HF H. unfold verify_checksum, polymod in H. apply N.eqb_eq in H.
+  rewrite app_assoc, fold_left_app in H. rewrite fold_append6 in H by assumption.
+  rewrite create_checksum_eq.
+  set (Z := fold_left polymod_step (repeat 0 6) _) in *.
+  assert (E : valw 5 c = N.lxor Z 1).
+  { rewrite <- H. rewrite <- N.lxor_assoc, N.lxor_nilpotent, N.lxor_0_l. reflexivity. }
+  rewrite <- E. symmetry. apply unpack6_valw; assumption.
+Qed.
+
+Lemma hrp_expand_lower : forall hrp, hrp_expand (lower hrp) = hrp_expand hrp.
+Proof. intros hrp. unfold hrp_expand. rewrite lower_idem. reflexivity. Qed.
+Lemma hrp_expand_upper : forall hrp, hrp_expand (upper hrp) = hrp_expand hrp.
+Proof. intros hrp. unfold hrp_expand. rewrite lower_upper. reflexivity. Qed.
+Lemma create_checksum_lower : forall hrp data,
+  create_checksum (lower hrp) data = create_checksum hrp data.
+Proof. intros. unfold create_checksum. rewrite hrp_expand_lower. reflexivity. Qed.
+Lemma verify_checksum_lower : forall hrp data,
+  verify_checksum (lower hrp) data = verify_checksum hrp data.
+Proof. intros. unfold verify_checksum. rewrite hrp_expand_lower. reflexivity. Qed.
+
+(** ** [last_index], [firstn]/[skipn] helpers *)
+
+Lemma last_index_notin : forall c t j f, ~ In c t -> last_index c t j f = f.
+Proof.
+  induction t as [|x t IH]; intros j f H; [reflexivity|].
+  cbn [last_index]. assert (E : Byte.eqb x c = false).
+  { apply byte_eqb_neq. intro E. apply H. left. assumption. }
+  rewrite E. apply IH. intro Hin. apply H. right. assumption.
+Qed.
+
+Lemma last_index_app : forall c a t i f, ~ In c t ->
+  last_index c (a ++ c :: t) i f = Some (i + length a)%nat.
+Proof.
+  induction a as [|x a IH]; intros t i f H.
+  - cbn [app last_index length]. rewrite byte_eqb_refl, last_index_notin by assumption.
+    f_equal. lia.
+  - cbn [app last_index length]. rewrite IH by assumption. f_equal. lia.
+Qed.
+
+Lemma last_index_some : forall c s i f p, last_index c s i f = Some p ->
+  f = Some p \/ ((i <= p)%nat /\ nth_error s (p - i) = Some c).
+Proof.
+  induction s as [|x s IH]; intros i f p H; cbn [last_index] in H.
+  - left. assumption.
+  - destruct (IH _ _ _ H) as [E|[Hle Hn]].
+    + destruct (Byte.eqb x c) eqn:Ex.
+      * injection E as <-. apply byte_eqb_eq in Ex. subst x.
+        right. split; [lia|]. rewrite Nat.sub_diag. reflexivity.
+      * left. assumption.
+    + right. split; [lia|]. replace (p - i)%nat with (S (p - S i)) by lia. exact Hn.
+Qed.
+
+Lemma last_index_split : forall s p, last_index one s 0 None = Some p ->
+  exists a t, s = a ++ one :: t /\ length a = p.
+Proof.
+  intros s p H. destruct (last_index_some _ _ _ _ _ H) as [E|[_ Hn]]; [discriminate E|].
+  rewrite Nat.sub_0_r in Hn. apply nth_error_split in Hn.
+  destruct Hn as (a & t & -> & HL). exists a, t. split; [reflexivity|assumption].
+Qed.
+
+Lemma b32_firstn_app_exact : forall (A : Type) (a b : list A) n, length a = n ->
+  firstn n (a ++ b) = a.
+Proof.
+  intros A a b n <-. rewrite firstn_app, Nat.sub_diag, firstn_O, firstn_all, app_nil_r.
+  reflexivity.
+Qed.
+
+Lemma b32_skipn_app_exact : forall (A : Type) (a b : list A) n, length a = n ->
+  skipn n (a ++ b) = b.
+Proof.
+  intros A a b n <-. rewrite skipn_app, Nat.sub_diag, skipn_all. reflexivity.
+Qed.
+
+Lemma skipn_S_app_cons : forall (A : Type) (a : list A) x r n, length a = n ->
+  skipn (S n) (a ++ x :: r) = r.
+Proof.
+  intros A a x r n H. replace (a ++ x :: r) with ((a ++ [x]) ++ r) by (rewrite <- app_assoc; reflexivity).
+  apply b32_skipn_app_exact. rewrite app_length. cbn. lia.
+Qed.
+
+(** ** The data part of an encoded string *)
+
+Lemma charset_string_facts : forall L, Forall (fun v => v < 32) L ->
+  existsb is_upper (map charset_at L) = false /\
+  forallb printable (map charset_at L) = true /\
+  ~ In one (map charset_at L) /\
+  lower (map charset_at L) = map charset_at L /\
+  ~ In one (upper (map charset_at L)).
+Proof.
+  induction L as [|v L IH]; intro H.
+  - repeat split; try reflexivity; intros [].
+  - pose proof (Forall_inv H) as Hv. cbv beta in Hv.
+    destruct (IH (Forall_inv_tail H)) as (I1 & I2 & I3 & I4 & I5).
+    destruct (charset_at_class v Hv) as (_ & C2 & C3 & C4 & C5 & C6).
+    unfold lower, upper in *. cbn [map existsb forallb In].
+    rewrite C2, C3, C5, I1, I2, I4. repeat split.
+    + intros [E|E]; [apply C4; assumption|apply I3; assumption].
+    + intros [E|E]; [apply C6; assumption|apply I5; assumption].
+Qed.
+
+Lemma mixed_case_upper : forall s, mixed_case (upper s) = false.
+Proof. intros s. unfold mixed_case. rewrite upper_no_lower. apply andb_false_r. Qed.
+
+Lemma mixed_case_app_l : forall a b, mixed_case (a ++ b) = false -> mixed_case a = false.
+Proof.
+  intros a b H. unfold mixed_case in *. rewrite !existsb_app in H.
+  destruct (existsb is_upper a), (existsb is_lower a); try reflexivity.
+  cbn in H. discriminate H.
+Qed.
+
+(** ** decode ∘ encode *)
+
+Lemma decode_build : forall hrp D L v5 data,
+  hrp <> [] -> forallb printable hrp = true -> forallb printable D = true ->
+  mixed_case (hrp ++ one :: D) = false -> ~ In one D ->
+  lower D = map charset_at L -> L = v5 ++ create_checksum hrp v5 ->
+  Forall (fun v => v < 32) v5 ->
+  convert_bits v5 5 8 false = Some (map b2n data) ->
+  decode (hrp ++ one :: D) = Ok (hrp, data).
+Proof.
+  intros hrp D L v5 data Hne Hp HpD Hm Hone HD HL Hv5 Hc.
+  assert (HLb : Forall (fun v => v < 32) L).
+  { subst L. apply Forall_app. split; [assumption|apply create_checksum_bound]. }
+  assert (HLen : length D = (length v5 + 6)%nat).
+  { rewrite <- (lower_length D), HD, map_length, HL, app_length, create_checksum_length.
+    reflexivity. }
+  apply decode_spec. split; [|split; [assumption|]].
+  - rewrite forallb_app. cbn [forallb]. rewrite Hp, HpD. reflexivity.
+  - exists (length hrp), L, (map b2n data).
+    split; [|split; [|split; [|split; [|split; [|split; [|split]]]]]].
+    + rewrite last_index_app by assumption. reflexivity.
+    + destruct hrp; [congruence|cbn; lia].
+    + rewrite app_length. cbn [length]. lia.
+    + rewrite b32_firstn_app_exact by reflexivity. reflexivity.
+    + rewrite lower_app. unfold lower at 2. cbn [map]. fold (lower D).
+      rewrite skipn_S_app_cons by apply lower_length.
+      rewrite HD. apply map_opt_charset_at. assumption.
+    + rewrite HL. apply checksum_verify.
+    + rewrite HL, app_length, create_checksum_length.
+      replace (length v5 + 6 - 6)%nat with (length v5) by lia.
+      rewrite b32_firstn_app_exact by reflexivity. assumption.
+    + rewrite map_n2b_b2n. reflexivity.
+Qed.
+
+Lemma encode_unfold : forall hrp data, hrp <> [] ->
+  encode hrp data =
+  match convert_bits (map b2n data) 8 5 true with
+  | None => None
+  | Some values =>
+      if negb (forallb printable hrp) then None
+      else if mixed_case hrp then None
+      else
+        let out := lower hrp ++ [one] ++ map charset_at values
+                     ++ map charset_at (create_checksum (lower hrp) values) in
+        Some (if bytes_eqb (lower hrp) hrp then out else upper out)
+  end.
+Proof. intros hrp data H. destruct hrp; [congruence|reflexivity]. Qed.
+
+Theorem decode_encode : forall hrp data,
+  hrp <> [] -> forallb printable hrp = true -> mixed_case hrp = false ->
+  exists s, encode hrp data = Some s /\ decode s = Ok (hrp, data).
+Proof.
+  intros hrp data Hne Hp Hm.
+  destruct (convert_bits_8_5_8 (map b2n data) (Forall_b2n data)) as (v5 & Hc & Hv5 & Hc').
+  rewrite encode_unfold by assumption. rewrite Hc, Hp, Hm. cbn [negb]. cbv zeta.
+  rewrite create_checksum_lower, <- map_app.
+  set (L := v5 ++ create_checksum hrp v5).
+  assert (HLb : Forall (fun v => v < 32) L).
+  { apply Forall_app. split; [assumption|apply create_checksum_bound]. }
+  destruct (charset_string_facts L HLb) as (F1 & F2 & F3 & F4 & F5).
+  change ([one] ++ map charset_at L) with (one :: map charset_at L).
+  destruct (bytes_eqb (lower hrp) hrp) eqn:El.
+  - apply bytes_eqb_eq in El. rewrite El. eexists. split; [reflexivity|].
+    apply (decode_build hrp (map charset_at L) L v5 data); try assumption; try reflexivity.
+    unfold mixed_case. rewrite existsb_app. cbn [existsb].
+    apply lower_fix_iff in El. rewrite El, F1. reflexivity.
+  - apply bytes_eqb_neq in El.
+    assert (Hu : existsb is_upper hrp = true).
+    { destruct (existsb is_upper hrp) eqn:E; [reflexivity|].
+      exfalso. apply El. apply lower_fix. assumption. }
+    assert (Hl : existsb is_lower hrp = false).
+    { unfold mixed_case in Hm. rewrite Hu in Hm. exact Hm. }
+    eexists. split; [reflexivity|].
+    rewrite upper_app, upper_lower, (upper_fix hrp Hl).
+    unfold upper at 1. cbn [map]. fold (upper (map charset_at L)).
+    change (to_upper one) with one.
+    apply (decode_build hrp (upper (map charset_at L)) L v5 data); try assumption; try reflexivity.
+    + rewrite printable_upper. assumption.
+    + rewrite <- (upper_fix hrp Hl) at 1. change (one :: upper (map charset_at L)) with (upper (one :: map charset_at L)).
+      rewrite <- upper_app. apply mixed_case_upper.
+    + rewrite lower_upper. assumption.
+Qed.
+
+(** ** encode ∘ decode *)
+
+Theorem encode_decode : forall s hrp d,
+  decode s = Ok (hrp, d) ->
+  existsb is_upper s = false \/ existsb is_upper hrp = true ->
+  encode hrp d = Some s.
+Proof.
+  intros s hrp d H G. apply decode_spec in H.
+  destruct H as (Hp & Hm & pos & data & b5 & Hl & H1 & H7 & Hh & Hd & Hv & Hc & Hdd).
+  destruct (last_index_split s pos Hl) as (a & t & Hs & Ha).
+  assert (Hha : hrp = a) by (rewrite Hh, Hs; apply b32_firstn_app_exact; assumption).
+  subst a. clear Hh.
+  assert (Hskip : skipn (S pos) (lower s) = lower t).
+  { rewrite Hs, lower_app. unfold lower at 2. cbn [map]. fold (lower t).
+    apply skipn_S_app_cons. rewrite lower_length. assumption. }
+  rewrite Hskip in Hd.
+  destruct (map_opt_charset_index _ _ Hd) as [Hdb Ht].
+  assert (Hlen : (6 <= length data)%nat).
+  { rewrite (map_opt_length _ _ _ _ _ Hd), lower_length.
+    rewrite Hs, app_length in H7. cbn [length] in H7. lia. }
+  set (v := firstn (length data - 6) data) in *.
+  set (c := skipn (length data - 6) data).
+  assert (Hvc : data = v ++ c) by (symmetry; apply firstn_skipn).
+  assert (Hcl : length c = 6%nat) by (unfold c; rewrite skipn_length; lia).
+  assert (Hvb : Forall (fun x => x < 32) v /\ Forall (fun x => x < 32) c).
+  { apply Forall_app. rewrite <- Hvc. assumption. }
+  destruct Hvb as [Hvb Hcb].
+  rewrite Hvc in Hv. apply checksum_unique in Hv; try assumption.
+  destruct (convert_bits_5_8_5 v b5 Hvb Hc) as [Hb5 Hc8].
+  assert (Hne : hrp <> []) by (intro E; rewrite E in Ha; cbn in Ha; lia).
+  assert (Hph : forallb printable hrp = true).
+  { rewrite Hs, forallb_app in Hp. apply andb_true_iff in Hp. apply Hp. }
+  assert (Hmh : mixed_case hrp = false).
+  { rewrite Hs in Hm. apply mixed_case_app_l in Hm. assumption. }
+  rewrite encode_unfold by assumption.
+  rewrite Hdd, map_b2n_n2b by assumption. rewrite Hc8, Hph, Hmh. cbn [negb]. cbv zeta.
+  rewrite create_checksum_lower, <- Hv, <- map_app, <- Hvc, <- Ht.
+  assert (Hout : lower hrp ++ [one] ++ lower t = lower s).
+  { rewrite Hs, lower_app. reflexivity. }
+  rewrite Hout. f_equal.
+  destruct G as [G|G].
+  - assert (Gh : existsb is_upper hrp = false).
+    { rewrite Hs in G. apply existsb_app_false in G. apply G. }
+    rewrite (lower_fix hrp Gh), bytes_eqb_refl. apply lower_fix. assumption.
+  - assert (Nl : bytes_eqb (lower hrp) hrp = false).
+    { apply bytes_eqb_neq. intro E. apply lower_fix_iff in E. congruence. }
+    rewrite Nl, upper_lower. apply upper_fix.
+    destruct (mixed_case_false s Hm) as [E|E]; [|assumption].
+    rewrite Hs in E. apply existsb_app_false in E. destruct E as [E _]. congruence.
+Qed.
+
+Lemma has_letter_guard : forall s hrp t, s = hrp ++ t -> mixed_case s = false ->
+  existsb is_upper hrp = true \/ existsb is_lower hrp = true ->
+  existsb is_upper s = false \/ existsb is_upper hrp = true.
+Proof.
+  intros s hrp t Hs Hm [H|H]; [right; assumption|left].
+  destruct (mixed_case_false s Hm) as [E|E]; [assumption|].
+  rewrite Hs in E. apply existsb_app_false in E. destruct E as [E _]. congruence.
+Qed.
+
+Lemma decode_prefix : forall s hrp d, decode s = Ok (hrp, d) ->
+  (exists t, s = hrp ++ t) /\ mixed_case s = false.
+Proof.
+  intros s hrp d H. apply decode_spec in H.
+  destruct H as (_ & Hm & pos & data & b5 & _ & _ & _ & Hh & _).
+  split; [|assumption]. exists (skipn pos s). rewrite Hh. symmetry. apply firstn_skipn.
+Qed.
+
+(** the guarded converse in its most convenient form: the hrp contains a letter *)
+Theorem encode_decode_letter : forall s hrp d,
+  decode s = Ok (hrp, d) ->
+  existsb is_upper hrp = true \/ existsb is_lower hrp = true ->
+  encode hrp d = Some s.
+Proof.
+  intros s hrp d H G. destruct (decode_prefix s hrp d H) as [[t Hs] Hm].
+  apply encode_decode; [assumption|]. apply (has_letter_guard s hrp t); assumption.
+Qed.
+
+Lemma decode_upper_hrp : forall s hrp d, decode s = Ok (hrp, d) ->
+  existsb is_upper hrp = true -> upper s = s.
+Proof.
+  intros s hrp d H G. destruct (decode_prefix s hrp d H) as [[t Hs] Hm].
+  apply upper_fix. destruct (mixed_case_false s Hm) as [E|E]; [|assumption].
+  rewrite Hs in E. apply existsb_app_false in E. destruct E as [E _]. congruence.
+Qed.
+
+Lemma decode_lower_hrp : forall s hrp d, decode s = Ok (hrp, d) ->
+  existsb is_lower hrp = true -> existsb is_upper s = false.
+Proof.
+  intros s hrp d H G. destruct (decode_prefix s hrp d H) as [[t Hs] Hm].
+  destruct (mixed_case_false s Hm) as [E|E]; [assumption|].
+  rewrite Hs in E. apply existsb_app_false in E. destruct E as [E _]. congruence.
+Qed.
+
+(** The unguarded converse is false of the model (and of the Go code): an
+    all-uppercase string whose human-readable part contains no letter decodes,
+    but re-encodes in lowercase. *)
+Definition caseless_witness : bytes :=
+  Eval vm_compute in match encode (bs "2") [] with Some s => upper s | None => [] end.
+
+Lemma encode_decode_unguarded_refuted :
+  exists s hrp d, decode s = Ok (hrp, d) /\ encode hrp d <> Some s.
+Proof.
+  exists caseless_witness, (bs "2"), []. split; [vm_compute; reflexivity|].
+  vm_compute. discriminate.
+Qed.
+
+(** ** Native key strings (C09) *)
+
+Theorem recipient_print_parse :
+  forall k : bytes, length k = 32%nat ->
+    exists s, recipient_string k = Some s /\ parse_recipient s = Ok k.
+Proof.
+  intros k Hk.
+  destruct (decode_encode hrp_age k) as (s & He & Hd);
+    [discriminate|reflexivity|reflexivity|].
+  exists s. split; [exact He|]. unfold parse_recipient. rewrite Hd. cbn [bind].
+  rewrite bytes_eqb_refl, Hk. reflexivity.
+Qed.
+
+Theorem identity_print_parse :
+  forall k : bytes, length k = 32%nat ->
+    exists s, identity_string k = Some s /\ parse_identity s = Ok k.
+Proof.
+  intros k Hk.
+  destruct (decode_encode hrp_secret k) as (s & He & Hd);
+    [discriminate|reflexivity|reflexivity|].
+  exists s. unfold identity_string. rewrite He.
+  rewrite (decode_upper_hrp s hrp_secret k Hd eq_refl).
+  split; [reflexivity|]. unfold parse_identity. rewrite Hd. cbn [bind].
+  rewrite bytes_eqb_refl, Hk. reflexivity.
+Qed.
+
+Lemma parse_recipient_inv : forall s k, parse_recipient s = Ok k ->
+  decode s = Ok (hrp_age, k) /\ length k = 32%nat.
+Proof.
+  intros s k H. unfold parse_recipient in H.
+  destruct (decode s) as [[hrp k']| |]; cbn [bind] in H; try discriminate H.
+  destruct (bytes_eqb hrp hrp_age) eqn:E1; [|discriminate H]. cbn [negb] in H.
+  destruct (Nat.eqb (length k') 32) eqn:E2; [|discriminate H]. cbn [negb] in H.
+  injection H as <-. apply bytes_eqb_eq in E1. apply Nat.eqb_eq in E2. subst hrp.
+  split; [reflexivity|assumption].
+Qed.
+
+Lemma parse_identity_inv : forall s k, parse_identity s = Ok k ->
+  decode s = Ok (hrp_secret, k) /\ length k = 32%nat.
+Proof.
+  intros s k H. unfold parse_identity in H.
+  destruct (decode s) as [[hrp k']| |]; cbn [bind] in H; try discriminate H.
+  destruct (bytes_eqb hrp hrp_secret) eqn:E1; [|discriminate H]. cbn [negb] in H.
+  destruct (Nat.eqb (length k') 32) eqn:E2; [|discriminate H]. cbn [negb] in H.
+  injection H as <-. apply bytes_eqb_eq in E1. apply Nat.eqb_eq in E2. subst hrp.
+  split; [reflexivity|assumption].
+Qed.
+
+Theorem recipient_parse_print :
+  forall s k : bytes, parse_recipient s = Ok k -> recipient_string k = Some s.
+Proof.
+  intros s k H. destruct (parse_recipient_inv s k H) as [Hd _].
+  unfold recipient_string. apply encode_decode_letter; [assumption|]. right. reflexivity.
+Qed.
+
+Theorem identity_parse_print :
+  forall s k : bytes, parse_identity s = Ok k -> identity_string k = Some s.
+Proof.
+  intros s k H. destruct (parse_identity_inv s k H) as [Hd _].
+  unfold identity_string. rewrite (encode_decode_letter s hrp_secret k Hd (or_introl eq_refl)).
+  rewrite (decode_upper_hrp s hrp_secret k Hd eq_refl). reflexivity.
+Qed.
+
+Theorem native_payload_32 :
+  forall s k : bytes, (parse_recipient s = Ok k \/ parse_identity s = Ok k) -> length k = 32%nat.
+Proof.
+  intros s k [H|H]; [apply (parse_recipient_inv s k H)|apply (parse_identity_inv s k H)].
+Qed.
+
+(** ** Plugin names (C17) *)
+
+Definition plugin_name_char (c : byte) : Prop :=
+  (97 <= b2n c <= 122)%N \/ (65 <= b2n c <= 90)%N \/ (48 <= b2n c <= 57)%N \/
+  c = x2b \/ c = x2d \/ c = x2e \/ c = x5f.
+
+Lemma plugin_char_spec : forall c, plugin_char c = true <-> plugin_name_char c.
+Proof.
+  intros c. unfold plugin_char, plugin_name_char, is_lower, is_upper.
+  rewrite !orb_true_iff, !andb_true_iff, !N.leb_le, !byte_eqb_eq. tauto.
+Qed.
+
+Theorem valid_plugin_name_spec :
+  forall n : bytes, valid_plugin_name n = true <-> (n <> [] /\ Forall plugin_name_char n).
+Proof.
+  intros n. unfold valid_plugin_name. destruct n as [|c n].
+  - split; [discriminate|intros [H _]; congruence].
+  - rewrite forallb_forall, Forall_forall. split.
+    + intro H. split; [discriminate|]. intros x Hx. apply plugin_char_spec. apply H. assumption.
+    + intros [_ H] x Hx. apply plugin_char_spec. apply H. assumption.
+Qed.
+
+Lemma valid_plugin_name_forallb : forall n, valid_plugin_name n = true ->
+  n <> [] /\ forallb plugin_char n = true.
+Proof.
+  intros n H. unfold valid_plugin_name in H. destruct n; [discriminate H|].
+  split; [discriminate|assumption].
+Qed.
+
+Theorem valid_plugin_name_no_sep :
+  forall n : bytes, valid_plugin_name n = true -> ~ In x2f n /\ ~ In x5c n /\ ~ In x00 n.
+Proof.
+  intros n H. destruct (valid_plugin_name_forallb n H) as [_ F].
+  rewrite forallb_forall in F.
+  repeat split; intro Hin; apply F in Hin; discriminate Hin.
+Qed.
+
+Theorem plugin_exe_spec : forall n : bytes, plugin_exe n = bs "age-plugin-" ++ n.
+Proof. reflexivity. Qed.
+
+Lemma plugin_char_to_lower : forall c, plugin_char (to_lower c) = plugin_char c.
+Proof. destruct c; reflexivity. Qed.
+Lemma plugin_char_to_upper : forall c, plugin_char (to_upper c) = plugin_char c.
+Proof. destruct c; reflexivity. Qed.
+Lemma plugin_char_printable : forall c, plugin_char c = true -> printable c = true.
+Proof. destruct c; vm_compute; intro H; try reflexivity; discriminate H. Qed.
+
+Lemma forallb_plugin_lower : forall n, forallb plugin_char (lower n) = forallb plugin_char n.
+Proof.
+  induction n as [|c n IH]; [reflexivity|].
+  unfold lower in *. cbn [map forallb]. rewrite plugin_char_to_lower, IH. reflexivity.
+Qed.
+Lemma forallb_plugin_upper : forall n, forallb plugin_char (upper n) = forallb plugin_char n.
+Proof.
+  induction n as [|c n IH]; [reflexivity|].
+  unfold upper in *. cbn [map forallb]. rewrite plugin_char_to_upper, IH. reflexivity.
+Qed.
+Lemma valid_plugin_name_lower : forall n, valid_plugin_name (lower n) = valid_plugin_name n.
+Proof.
+  intros n. destruct n as [|c n]; [reflexivity|].
+  exact (forallb_plugin_lower (c :: n)).
+Qed.
+Lemma valid_plugin_name_upper : forall n, valid_plugin_name (upper n) = valid_plugin_name n.
+Proof.
+  intros n. destruct n as [|c n]; [reflexivity|].
+  exact (forallb_plugin_upper (c :: n)).
+Qed.
+
+Lemma valid_plugin_name_printable : forall n, valid_plugin_name n = true ->
+  forallb printable n = true.
+Proof.
+  intros n H. destruct (valid_plugin_name_forallb n H) as [_ F].
+  rewrite forallb_forall in *. intros x Hx. apply plugin_char_printable. apply F. assumption.
+Qed.
+
+(** ** [strip_prefix] / [strip_suffix_byte] *)
+
+Lemma strip_prefix_app : forall p s, strip_prefix p (p ++ s) = Some s.
+Proof.
+  induction p as [|x p IH]; intro s; [destruct s; reflexivity|].
+  cbn [app strip_prefix]. rewrite byte_eqb_refl. apply IH.
+Qed.
+
+Lemma strip_prefix_spec : forall p s r, strip_prefix p s = Some r -> s = p ++ r.
+Proof.
+  induction p as [|x p IH]; intros s r H.
+  - destruct s; injection H as <-; reflexivity.
+  - destruct s as [|y s]; [discriminate H|]. cbn [strip_prefix] in H.
+    destruct (Byte.eqb x y) eqn:E; [|discriminate H]. apply byte_eqb_eq in E. subst y.
+    cbn [app]. f_equal. apply IH. assumption.
+Qed.
+
+Lemma strip_suffix_byte_app : forall c a, strip_suffix_byte c (a ++ [c]) = Some a.
+Proof.
+  intros c a. unfold strip_suffix_byte. rewrite rev_unit, byte_eqb_refl, rev_involutive.
+  reflexivity.
+Qed.
+
+Lemma strip_suffix_byte_spec : forall c s a, strip_suffix_byte c s = Some a -> s = a ++ [c].
+Proof.
+  intros c s a H. unfold strip_suffix_byte in H. destruct (rev s) as [|x r] eqn:E; [discriminate H|].
+  destruct (Byte.eqb x c) eqn:Ex; [|discriminate H]. injection H as <-.
+  apply byte_eqb_eq in Ex. subst x. rewrite <- (rev_involutive s), E. reflexivity.
+Qed.
+
+Lemma strip_suffix_byte_app_r : forall c a b x, b <> [] ->
+  strip_suffix_byte c (a ++ b) = Some x -> exists y, strip_suffix_byte c b = Some y.
+Proof.
+  intros c a b x Hb H. unfold strip_suffix_byte in *. rewrite rev_app_distr in H.
+  destruct (rev b) as [|z l] eqn:E.
+  - exfalso. apply Hb. rewrite <- (rev_involutive b), E. reflexivity.
+  - cbn [app] in H. destruct (Byte.eqb z c); [|discriminate H]. eexists. reflexivity.
+Qed.
+
+(** ** Plugin key strings (C09) *)
+
+Lemma pfx_plugin_rcpt_facts :
+  forallb printable pfx_plugin_rcpt = true /\ existsb is_upper pfx_plugin_rcpt = false /\
+  existsb is_lower pfx_plugin_rcpt = true.
+Proof. repeat split. Qed.
+
+Lemma pfx_plugin_id_facts :
+  forallb printable pfx_plugin_id = true /\ existsb is_lower pfx_plugin_id = false /\
+  existsb is_upper pfx_plugin_id = true.
+Proof. repeat split. Qed.
+
+Theorem plugin_recipient_print_parse :
+  forall name data : bytes, valid_plugin_name name = true ->
+    exists s, encode_plugin_recipient name data = Some s /\
+              parse_plugin_recipient s = Ok (lower name, data).
+Proof.
+  intros name data Hv.
+  assert (Hvl : valid_plugin_name (lower name) = true) by (rewrite valid_plugin_name_lower; assumption).
+  destruct (decode_encode (pfx_plugin_rcpt ++ lower name) data) as (s & He & Hd).
+  - discriminate.
+  - rewrite forallb_app. rewrite (valid_plugin_name_printable _ Hvl). reflexivity.
+  - unfold mixed_case. rewrite existsb_app, lower_no_upper. reflexivity.
+  - exists s. unfold encode_plugin_recipient. rewrite Hv. split; [exact He|].
+    unfold parse_plugin_recipient. rewrite Hd. cbn [bind].
+    rewrite strip_prefix_app, Hvl. reflexivity.
+Qed.
+
+Theorem plugin_identity_print_parse :
+  forall name data : bytes, valid_plugin_name name = true ->
+    exists s, encode_plugin_identity name data = Some s /\
+              parse_plugin_identity s = Ok (lower name, data).
+Proof.
+  intros name data Hv.
+  assert (Hvu : valid_plugin_name (upper name) = true) by (rewrite valid_plugin_name_upper; assumption).
+  assert (Hvl : valid_plugin_name (lower name) = true) by (rewrite valid_plugin_name_lower; assumption).
+  destruct (decode_encode (pfx_plugin_id ++ upper name ++ [dash]) data) as (s & He & Hd).
+  - discriminate.
+  - rewrite !forallb_app. rewrite (valid_plugin_name_printable _ Hvu). reflexivity.
+  - unfold mixed_case. apply andb_false_iff. right. apply existsb_app_false.
+    split; [reflexivity|]. apply existsb_app_false. split; [apply upper_no_lower|reflexivity].
+  - exists s. unfold encode_plugin_identity. rewrite Hv. split; [exact He|].
+    unfold parse_plugin_identity. rewrite Hd. cbn [bind].
+    rewrite strip_prefix_app.
+    rewrite (app_assoc pfx_plugin_id), !strip_suffix_byte_app.
+    rewrite lower_upper, Hvl. reflexivity.
+Qed.
+
+Theorem plugin_recipient_parse_print :
+  forall s name data : bytes,
+    parse_plugin_recipient s = Ok (name, data) -> encode_plugin_recipient name data = Some s.
+Proof.
+  intros s name data H. unfold parse_plugin_recipient in H.
+  destruct (decode s) as [[hrp d]| |] eqn:Hd; cbn [bind] in H; try discriminate H.
+  destruct (strip_prefix pfx_plugin_rcpt hrp) as [n|] eqn:Es; [|discriminate H].
+  destruct (valid_plugin_name n) eqn:Ev; [|discriminate H].
+  injection H as <- <-. apply strip_prefix_spec in Es. subst hrp.
+  assert (Hlow : existsb is_lower (pfx_plugin_rcpt ++ n) = true).
+  { rewrite existsb_app. reflexivity. }
+  pose proof (decode_lower_hrp _ _ _ Hd Hlow) as Hnu.
+  destruct (decode_prefix _ _ _ Hd) as [[t Hs] _].
+  assert (Hn : existsb is_upper n = false).
+  { rewrite Hs, <- app_assoc in Hnu. apply existsb_app_false in Hnu. destruct Hnu as [_ Hnu].
+    apply existsb_app_false in Hnu. apply Hnu. }
+  unfold encode_plugin_recipient. rewrite Ev, (lower_fix n Hn).
+  apply encode_decode; [assumption|]. left. assumption.
+Qed.
+
+Theorem plugin_identity_parse_print :
+  forall s name data : bytes,
+    parse_plugin_identity s = Ok (name, data) -> encode_plugin_identity name data = Some s.
+Proof.
+  intros s name data H. unfold parse_plugin_identity in H.
+  destruct (decode s) as [[hrp d]| |] eqn:Hd; cbn [bind] in H; try discriminate H.
+  destruct (strip_prefix pfx_plugin_id hrp) as [r|] eqn:Es; [|discriminate H].
+  destruct (strip_suffix_byte dash hrp) as [x|] eqn:Ex; [|discriminate H].
+  apply strip_prefix_spec in Es. subst hrp.
+  assert (Hup : existsb is_upper (pfx_plugin_id ++ r) = true).
+  { rewrite existsb_app. reflexivity. }
+  destruct (list_eq_dec Byte.byte_eq_dec r []) as [Er|Er].
+  { subst r. cbn in H. discriminate H. }
+  destruct (strip_suffix_byte_app_r _ _ _ _ Er Ex) as [n En].
+  rewrite En in H. destruct (valid_plugin_name (lower n)) eqn:Ev; [|discriminate H].
+  injection H as <- <-. apply strip_suffix_byte_spec in En. subst r.
+  pose proof (decode_upper_hrp _ _ _ Hd Hup) as Hsu.
+  destruct (decode_prefix _ _ _ Hd) as [[t Hs] _].
+  assert (Hn : upper n = n).
+  { apply upper_fix. apply upper_fix_iff in Hsu. rewrite Hs in Hsu.
+    apply existsb_app_false in Hsu. destruct Hsu as [Hsu _].
+    apply existsb_app_false in Hsu. destruct Hsu as [_ Hsu].
+    apply existsb_app_false in Hsu. apply Hsu. }
+  unfold encode_plugin_identity. rewrite Ev, upper_lower, Hn.
+  apply encode_decode; [assumption|]. right. assumption.
+Qed.
+
+Theorem plugin_parsers_valid_name :
+  forall s name data : bytes,
+    (parse_plugin_recipient s = Ok (name, data) \/ parse_plugin_identity s = Ok (name, data)) ->
+    valid_plugin_name name = true.
+Proof.
+  intros s name data [H|H].
+  - unfold parse_plugin_recipient in H.
+    destruct (decode s) as [[hrp d]| |]; cbn [bind] in H; try discriminate H.
+    destruct (strip_prefix pfx_plugin_rcpt hrp) as [n|]; [|discriminate H].
+    destruct (valid_plugin_name n) eqn:Ev; [|discriminate H].
+    injection H as <- <-. assumption.
+  - unfold parse_plugin_identity in H.
+    destruct (decode s) as [[hrp d]| |]; cbn [bind] in H; try discriminate H.
+    destruct (strip_prefix pfx_plugin_id hrp) as [r|]; [|discriminate H].
+    destruct (strip_suffix_byte dash hrp) as [x|]; [|discriminate H].
+    match type of H with (if valid_plugin_name ?n then _ else _) = _ =>
+      destruct (valid_plugin_name n) eqn:Ev; [|discriminate H] end.
+    injection H as <- <-. assumption.
+Qed.
+
+Theorem new_identity_without_data_valid :
+  forall name enc : bytes,
+    new_identity_without_data name = Some enc -> valid_plugin_name name = true.
+Proof.
+  intros name enc H. unfold new_identity_without_data, encode_plugin_identity in H.
+  destruct (valid_plugin_name name); [reflexivity|discriminate H].
 Qed.
